@@ -89,16 +89,29 @@ def run(ctx):
             s3, G3 = ev(cls, ovo, P[:, tau], A)
             if not core.close(s, float(s3), rtol=tolr * scale, atol=tolr * scale) or not gclose(G[:, tau].ravel().tolist(), np.asarray(G3).ravel().tolist()):
                 ctx.violation(f"not invariant under a cluster permutation: {s} vs {float(s3)}", "cluster-perm", {**inp, "perm": tau.tolist()}, key=f"cluster-perm:{cfg}", how=how)
-            # empty cluster
-            Pe = np.concatenate([P, np.zeros((n, 1))], axis=1)
-            try:
-                s4, G4 = ev(cls, ovo, Pe, A)
-                if not core.close(s, float(s4), rtol=0, atol=slack + tolr * scale * max(1, abs(s))):
-                    ctx.violation(f"adding an empty cluster changes the score: {s} -> {float(s4)}", "empty-cluster", inp, key=f"empty:{cfg}", how=how)
-                if not (np.asarray(G4)[:, -1] == 0).all():
-                    ctx.violation("the empty cluster receives a non-zero gradient", "empty-cluster", inp, key=f"empty-grad:{cfg}", how=how)
-            except Exception as e:
-                ctx.violation(f"adding an empty cluster raises {type(e).__name__}: {e}", "empty-cluster", inp, key=f"empty-raise:{cfg}", how=how)
+            # empty cluster, appended and inserted at another position (front / middle): where the empty column sits is a
+            # relabelling and must not matter either
+            for pos in sorted({K, int(rs.randint(0, K))}):
+                Pe = np.insert(P, pos, 0.0, axis=1)
+                try:
+                    s4, G4 = ev(cls, ovo, Pe, A)
+                    if not core.close(s, float(s4), rtol=0, atol=slack + tolr * scale * max(1, abs(s))):
+                        ctx.violation(f"adding an empty cluster at position {pos} changes the score: {s} -> {float(s4)}", "empty-cluster",
+                                      {**inp, "position": pos}, key=f"empty:{cfg}", how=how)
+                    G4 = np.asarray(G4)
+                    if not (G4[:, pos] == 0).all():
+                        ctx.violation(f"the empty cluster (position {pos}) receives a non-zero gradient", "empty-cluster", {**inp, "position": pos},
+                                      key=f"empty-grad:{cfg}", how=how)
+                    # the other clusters keep their gradient (up to the documented slack of the clipping)
+                    rest = np.delete(G4, pos, axis=1)
+                    gs = float(np.abs(G).max()) if G.size else 0.0
+                    if not illc and cls != "wass" and np.abs(rest - G).max() > 1e-6 * max(gs, 1e-12) + 10 * slack:
+                        ctx.violation(f"adding an empty cluster at position {pos} changes the gradient of the other clusters by "
+                                      f"{float(np.abs(rest - G).max())}", "empty-cluster", {**inp, "position": pos}, key=f"empty-othergrad:{cfg}", how=how)
+                    ctx.count("empty-cluster:appended" if pos == K else "empty-cluster:inserted")
+                except Exception as e:
+                    ctx.violation(f"adding an empty cluster at position {pos} raises {type(e).__name__}: {e}", "empty-cluster", {**inp, "position": pos},
+                                  key=f"empty-raise:{cfg}", how=how)
             # bounds
             lo = 0.5 if cls == "chi2" else 0.0
             if s < lo - slack - 1e-12:
